@@ -14,6 +14,8 @@ fn main() {
             error_context: i % 5 == 0,
             fixed_lists: i % 4 == 0,
             docs: i % 2 == 1,
+            multi_pkg: a.get("multi").is_some(),
+            ifaces: if a.get("multi").is_some() { 8 } else { 3 },
             ..Default::default()
         };
         let w = generate(&mut rng, &cfg);
